@@ -277,14 +277,22 @@ class History(RuleBasedStateMachine):
         self.reusable = [x for x in self.reusable if x[0] != i]
         self.rewrites = getattr(self, 'rewrites', 0) + 1
 
-    @rule(which=st.integers(0, 1), value=st.sampled_from([5, 7, 1234, 2047, 2048, 40000]))
+    @rule(which=st.integers(0, 1), value=st.sampled_from([5, 7, 1234, 2047, 2048, 40000, None, None]))
     def rewrite_an_included_file(self, which, value):
-        # the local.asm of one source directory gets new contents between two builds
+        # the local.asm of one source directory gets new contents between two builds - or disappears (None) / comes back
         self.ops.append(['rewrite_local', which, value])
-        self.local_k[which] = value
-        with open(os.path.join(self.dir, ('src', 'src2')[which], 'local.asm'), 'w') as f:
-            f.write('LOCAL_K = %d\n' % value)
+        self.set_local(which, value)
         self.rewrites = getattr(self, 'rewrites', 0) + 1
+
+    def set_local(self, which, value):
+        self.local_k[which] = value
+        p = os.path.join(self.dir, ('src', 'src2')[which], 'local.asm')
+        if value is None:
+            if os.path.exists(p):
+                os.remove(p)
+            return
+        with open(p, 'w') as f:
+            f.write('LOCAL_K = %d\n' % value)
 
     @precondition(lambda self: len(self.returned) > 0)
     @rule(k=st.integers(0, 50), name=st.sampled_from(S.LABEL_NAMES[:8] + S.CONST_NAMES[:8]), v=st.integers(-5, 5000))
@@ -446,9 +454,7 @@ def replay(path):
                     m._call(i, compress, mode, incdirs, reuse_from=rf)
                 elif op[0] == 'rewrite_local':
                     _, which, value = op
-                    m.local_k[which] = value
-                    with open(os.path.join(m.dir, ('src', 'src2')[which], 'local.asm'), 'w') as f:
-                        f.write('LOCAL_K = %d\n' % value)
+                    m.set_local(which, value)
                 elif op[0] == 'rewrite':
                     _, i, j = op
                     m.pool[i] = m.original[j]
